@@ -41,14 +41,15 @@ var oracles = map[string]transOracle{}
 type level struct {
 	menu     menuLevel
 	miniOnly bool // expand only states whose whole history consists of mini-menu edits
+	mixed    bool // full menu from states reached by mini-menu edits, mini menu from all other states
 	maxSeedB int  // only states descending from seeds of at most this many bytes (0 = all)
 }
 
 func plan(thorough bool) []level {
 	if thorough {
-		return []level{{menuFull, false, 0}, {menuFull, false, 0}, {menuMini, true, 64}, {menuMini, true, 30}}
+		return []level{{menu: menuFull}, {menu: menuFull, mixed: true}, {menu: menuMini, miniOnly: true}, {menu: menuMini, miniOnly: true, maxSeedB: 30}}
 	}
-	return []level{{menuFull, false, 0}, {menuMini, true, 0}}
+	return []level{{menu: menuFull}, {menu: menuMini, miniOnly: true}}
 }
 
 const hangBound = 30 * time.Second
@@ -425,7 +426,11 @@ func runBFS(p *eng.Solo, def *checkDef) {
 			}
 			frontier, frontierIdx = f2, i2
 		}
-		name := fmt.Sprintf("depth<=%d(menu=%s,states=%d)", d, map[menuLevel]string{menuMini: "mini", menuFull: "full"}[L.menu], len(frontier))
+		mname := map[menuLevel]string{menuMini: "mini", menuFull: "full"}[L.menu]
+		if L.mixed {
+			mname = "full-after-mini-edits/mini-otherwise"
+		}
+		name := fmt.Sprintf("depth<=%d(menu=%s,states=%d)", d, mname, len(frontier))
 		if p.Expired() {
 			phases = append(phases, map[string]any{"phase": name, "complete": false, "evaluations": 0})
 			exhaustive = false
@@ -436,6 +441,9 @@ func runBFS(p *eng.Solo, def *checkDef) {
 		}
 		outs, complete := expandAll(p, def, frontier, func(st *state) menuLevel {
 			if Seeds[st.seed].Tier == 2 && d >= 2 {
+				return menuMini
+			}
+			if L.mixed && !st.mini {
 				return menuMini
 			}
 			return L.menu
@@ -501,8 +509,11 @@ func runBFS(p *eng.Solo, def *checkDef) {
 				}
 				if r.Post != "" {
 					kk := key(st.seed, r.Post)
-					if _, dup := seen[kk]; dup {
+					if j, dup := seen[kk]; dup {
 						cnt["successors_already_seen"]++
+						if all[j].depth == d && st.mini && r.Mini {
+							all[j].mini = true // also reachable at this depth by mini-menu edits only
+						}
 					} else {
 						ns := &state{text: r.Post, files: st.files, seed: st.seed, parent: frontierIdx[k], via: *r.Op, depth: d, mini: st.mini && r.Mini}
 						seen[kk] = len(all)
